@@ -148,7 +148,7 @@ impl ArrayDecoder for FixedSizeBinaryArrayDecoder {
                     builder.append_value(&scratch)?;
                 }
                 TapeElement::Null => builder.append_null(),
-                _ => unreachable!(),
+                _ => return Err(tape.error(*p, "binary data encoded as string")),
             }
         }
 
